@@ -165,3 +165,5 @@ func simulate(bm *bondmachine.Bondmachine, env gen.Env, ticks int) (out [][]uint
 	}
 	return r.Out, r.Sent, nil
 }
+
+func procbuilderAllopcodes() []procbuilder.Opcode { return procbuilder.Allopcodes }
